@@ -7,7 +7,7 @@ ASSUMPTIONS = ['end-to-end health (16 positions x oracle bytes) is decided compo
 
 def tasks(tier):
     from specs.flows import flow_task
-    return [(f'flow:{n}', flow_task(n, ('C04',))) for n in ('borrow', 'withdraw', 'liquidate', 'kamino_withdraw', 'solend_withdraw')]
+    return [(f'flow:{n}', flow_task(n, ('C04',))) for n in ('borrow', 'withdraw', 'liquidate', 'kamino_withdraw', 'solend_withdraw', 'drift_withdraw')]
 
 
 # ---------------------------------------------------------------- C04.c/d/e/h kernels
